@@ -1151,6 +1151,19 @@ impl Server {
                     }
                 }
                 
+                // Subscriber context (RESP2): a connection that holds subscriptions only reads what is published;
+                // the commands that manage the subscriptions, PING and QUIT are all it may send. Anything else
+                // could change its state under the message flow - a BLPOP that blocks takes the connection out of
+                // the event loop's pass and the messages PUBLISH counted for it stay in its buffer
+                if self.pubsub.is_subscribed(conn_id)
+                    && !matches!(command.as_str(), "SUBSCRIBE" | "UNSUBSCRIBE" | "PSUBSCRIBE" | "PUNSUBSCRIBE" | "PING" | "QUIT")
+                {
+                    return Ok(RespFrame::error(format!(
+                        "ERR Can't execute '{}': only (P|S)SUBSCRIBE / (P|S)UNSUBSCRIBE / PING / QUIT / RESET are allowed in this context",
+                        command.to_lowercase()
+                    )));
+                }
+                
                 // Between MULTI and EXEC everything but the transaction-control commands is only queued:
                 // this test comes before the MONITOR / pub/sub / AUTH / REPLCONF arms, which would execute at once
                 if in_transaction && transactions::should_queue_command(&command) {
